@@ -34,7 +34,7 @@ CONSTANTS
                \*   "aq"     two ADD_QUANTIZE consumers with different parameters are compatible (F10)
                \*   "sig"    signature outputs follow rewired subgraph outputs (F6)
                \*   "uniq"   inserted tensors get a name that is unique in the subgraph (F19)
-               \*   "concat" constants of same-as-output ops are given data (F13; not repaired in the code)
+               \*   "concat" constants of same-as-output ops are quantised with the output's parameters (F13)
 
 FixPerf == "perf" \in Fixes
 FixRemove == "remove" \in Fixes
@@ -130,22 +130,26 @@ CurS == NSub
 Acts(s) == {t \in 0..(NT0(s)-1) : Role(s, t) = "act" /\ G[s].tsh[t+1] # <<0, 0>>}
 ConstsOf(s, r) == {t \in 0..(NT0(s)-1) : Role(s, t) = r}
 
-\* choice per operand position: an existing tensor id, -1 (absent), -2 (fresh), or <<-3, s2, t2>> (fresh tensor
-\* sharing the buffer of tensor t2 of subgraph s2)
+\* choice per operand position (uniformly tuples, so that TLC can compare them):
+\*   <<"t", id>> existing tensor, <<"absent">> (-1), <<"fresh">> new tensor,
+\*   <<"share", s2, t2>> new tensor sharing the buffer of tensor t2 of subgraph s2
+T(c) == c[2]
+IsT(c) == c[1] = "t"
 PosChoices(s, k, j) ==
   LET r == Sig(k)[j]
       \* an existing weight is reusable only by the same kind and position (shapes must agree)
       sameUse(t) == \E i \in 1..NOpsOf(s) : G[s].ops[i].kind = k /\ G[s].ops[i].ins[j] = t
       sameUseAny(s2, t) == \E i \in 1..NOpsOf(s2) : G[s2].ops[i].kind = k /\ G[s2].ops[i].ins[j] = t
-  IN CASE r = "act" -> Acts(s)
-       [] r = "aux" -> {-2}
-       [] r = "b?"  -> {-1, -2}
-       [] r = "w"   -> {-2}
-                       \cup (IF Share \in {"tensor", "buffer"} THEN {t \in ConstsOf(s, "w") : sameUse(t)} ELSE {})
+      ex(S) == {<<"t", t>> : t \in S}
+  IN CASE r = "act" -> ex(Acts(s))
+       [] r = "aux" -> {<<"fresh">>}
+       [] r = "b?"  -> {<<"absent">>, <<"fresh">>}
+       [] r = "w"   -> {<<"fresh">>}
+                       \cup (IF Share \in {"tensor", "buffer"} THEN ex({t \in ConstsOf(s, "w") : sameUse(t)}) ELSE {})
                        \cup (IF Share = "buffer"
-                             THEN UNION {{<<-3, s2, t2>> : t2 \in {t \in ConstsOf(s2, "w") : sameUseAny(s2, t)}} : s2 \in 1..NSub}
+                             THEN UNION {{<<"share", s2, t2>> : t2 \in {t \in ConstsOf(s2, "w") : sameUseAny(s2, t)}} : s2 \in 1..NSub}
                              ELSE {})
-       [] r = "x"   -> Acts(s) \cup ConstsOf(s, "c") \cup {-2}
+       [] r = "x"   -> ex(Acts(s)) \cup ex(ConstsOf(s, "c")) \cup {<<"fresh">>}
 
 RECURSIVE SelTuples(_, _, _)
 SelTuples(s, k, j) == IF j > Len(Sig(k)) THEN {<<>>}
@@ -154,8 +158,8 @@ SelTuples(s, k, j) == IF j > Len(Sig(k)) THEN {<<>>}
 ShapeOf(s, t) == G[s].tsh[t+1]
 \* <<ok, output shape tag>> ; tag <<n, w>> stands for [n,2,w,4]; <<0,0>> = usable only as a graph output
 OutShape(s, k, sel) ==
-  LET acts == {j \in 1..Len(sel) : sel[j] \in Nat /\ Role(s, sel[j]) = "act"}
-      shs == {ShapeOf(s, sel[j]) : j \in acts}
+  LET acts == {j \in 1..Len(sel) : IsT(sel[j]) /\ Role(s, T(sel[j])) = "act"}
+      shs == {ShapeOf(s, T(sel[j])) : j \in acts}
   IN CASE k = "EMB" -> <<TRUE, <<0, 0>>>>
        [] k = "EW1A" -> <<TRUE, <<0, 0>>>>
        [] k = "EW2" -> IF acts = {} THEN <<FALSE, <<0, 0>>>>
@@ -164,7 +168,7 @@ OutShape(s, k, sel) ==
        [] k = "CONCAT" -> IF acts = {} THEN <<FALSE, <<0, 0>>>>
                           ELSE LET n == LET RECURSIVE f(_)
                                             f(j) == IF j > Len(sel) THEN 0
-                                                    ELSE (IF j \in acts THEN ShapeOf(s, sel[j])[1] ELSE 1) + f(j+1)
+                                                    ELSE (IF j \in acts THEN ShapeOf(s, T(sel[j]))[1] ELSE 1) + f(j+1)
                                         IN f(1)
                                IN <<Cardinality({x[2] : x \in shs}) = 1, <<n, (CHOOSE x \in shs : TRUE)[2]>>>>
        [] k = "SPLIT" -> LET x == CHOOSE x \in shs : TRUE IN <<x[2] = 2, <<x[1], 1>>>>
@@ -175,17 +179,18 @@ AddOp(k, sel) ==
   /\ LET s == CurS
          osh == OutShape(s, k, sel)
          RECURSIVE res(_, _, _, _, _)
-         \* resolve fresh operands into new tensor ids: <<ins, roles, bufs, shapes, nbufg>>
+         \* resolve fresh operands into new tensor ids: <<ins, roles, bufs, nbufg>>
          res(j, ins, roles, bufs, nb) ==
            IF j > Len(sel) THEN <<ins, roles, bufs, nb>>
            ELSE LET r0 == Sig(k)[j]
                     r == IF r0 = "b?" THEN "b" ELSE IF r0 = "x" THEN "c" ELSE r0
-                IN IF sel[j] = -2
+                    c == sel[j]
+                IN IF c[1] = "fresh"
                    THEN res(j+1, Append(ins, Len(roles)), Append(roles, r), Append(bufs, 0), nb)
-                   ELSE IF sel[j] \in Int
-                   THEN res(j+1, Append(ins, sel[j]), roles, bufs, nb)
+                   ELSE IF c[1] = "absent" THEN res(j+1, Append(ins, -1), roles, bufs, nb)
+                   ELSE IF c[1] = "t" THEN res(j+1, Append(ins, c[2]), roles, bufs, nb)
                    ELSE \* shared buffer with <<s2, t2>>: both tensors end up in one group
-                        LET s2 == sel[j][2]  t2 == sel[j][3]
+                        LET s2 == c[2]  t2 == c[3]
                             g0 == IF s2 = s THEN bufs[t2+1] ELSE G[s2].tbuf[t2+1]
                             g == IF g0 = 0 THEN nb + 1 ELSE g0
                             bufs2 == IF s2 = s /\ g0 = 0 THEN [bufs EXCEPT ![t2+1] = g] ELSE bufs
@@ -202,7 +207,7 @@ AddOp(k, sel) ==
          G2 == [s2 \in 1..NSub |->
                   IF s2 = s THEN G1[s2]
                   ELSE [G1[s2] EXCEPT !.tbuf = [t \in 1..Len(@) |->
-                          IF \E j \in 1..Len(sel) : sel[j] \notin Int /\ sel[j][2] = s2 /\ sel[j][3] = t-1 /\ @[t] = 0
+                          IF \E j \in 1..Len(sel) : sel[j][1] = "share" /\ sel[j][2] = s2 /\ sel[j][3] = t-1 /\ @[t] = 0
                           THEN r[4] ELSE @[t]]]]
      IN /\ osh[1]
         /\ G' = G2
@@ -471,7 +476,9 @@ ApplySkip == /\ pc = "apply" /\ insts # <<>> /\ Head(insts).tr = "NQ"
 
 \* quantize_tensor on tensor t of subgraph s: buffer data (only if the tensor has its own non-zero buffer and the
 \* parameters carry data), dtype, annotation
-Annot(par) == IF par[1] = "F16" THEN NoPar ELSE par          \* float16 casting writes no quantization annotation
+\* the annotation written into the flatbuffer: float16 casting writes none; a constant quantised with another
+\* tensor's parameters carries exactly those
+Annot(par) == IF par[1] = "F16" THEN NoPar ELSE IF par[1] = "Wact" /\ Len(par) = 4 THEN par[4] ELSE par
 QTensor(Rs, s, t, par) == [Rs EXCEPT !.dt[t+1] = DtOf(par), !.par[t+1] = Annot(par)]
 BufWrite(s, t, par) == IF t < NT0(s) /\ IsConst(s, t) /\ HasData(par) THEN Append(bufw, <<BufOf(s, t), par>>) ELSE bufw
 
